@@ -64,3 +64,16 @@ MANIFEST_ENTRY = dict(
     text='One unit per 8-lane kernel (canonicalise, add/sub and their canonical-operand variants, 128/72-bit products, both reductions, mult, mult_8, square, loads/stores, register aliasing), all lanes, all register contents, under the documented operand assumptions; no bound.',
     note='Trusted: AVX-512 intrinsic semantics table (guarded natively on AVX-512F hardware), 32x32 product abstracted as an uninterpreted function in recombination units, alignment not modelled, CBMC/cadical.')
 NATIVE_SOURCES = ['props/C11/wrappers.cpp']
+
+LEMMAS = ['schoolbook', 'schoolbook_sq', 'reduce_congruence']
+def extra_checks(rn, tier, ginfos):
+    from vf import lean
+    import os, json
+    r = lean.check_lemmas(LEMMAS)
+    if r.get('lean_failed'):
+        path = os.path.join(os.environ.get('VF_REPLAY_DIR', os.path.join(os.path.dirname(os.path.dirname(os.path.dirname(os.path.abspath(__file__)))), 'replay', 'out')), PROPERTY)
+        os.makedirs(path, exist_ok=True)
+        f = os.path.join(path, 'lean-lemmas.json')
+        json.dump(dict(property=PROPERTY, obligation='Lean lemmas ' + ', '.join(LEMMAS), verifier_output=r.get('lean_output', '')), open(f, 'w'), indent=1)
+        r['violations'] = ['VIOLATION property=%s replay=%s [Lean lemma no longer accepted] no-failing-input-found' % (PROPERTY, f)]
+    return r
